@@ -60,6 +60,12 @@ Proof. intros W r. destruct m1, m2; try discriminate W; destruct v; cbn; congrue
 Lemma iter_items_mono m1 m2 v : weaker m1 m2 = true -> le (iter_items m1 v) (iter_items m2 v).
 Proof. intros W r. destruct m1, m2; try discriminate W; destruct v; cbn; congruence. Qed.
 
+Lemma item_result_mono m1 m2 x k : weaker m1 m2 = true -> le (item_result m1 x k) (item_result m2 x k).
+Proof. intros W. unfold item_result. destruct (get_item_opt x k); [apply le_refl | apply u_handle_undefined_mono, W]. Qed.
+
+Lemma attr_result_mono m1 m2 x a : weaker m1 m2 = true -> le (attr_result m1 x a) (attr_result m2 x a).
+Proof. intros W. unfold attr_result. destruct (get_attr_opt x a); [apply le_refl | apply u_handle_undefined_mono, W]. Qed.
+
 Lemma bin_check_mono m1 m2 op x y : weaker m1 m2 = true -> le (bin_check m1 op x y) (bin_check m2 op x y).
 Proof.
   intros W. destruct op; try apply le_refl. cbn [bin_check].
@@ -230,7 +236,17 @@ Lemma with_binds_mono (ev1 ev2 : st -> expr -> outcome (value * st)) :
   (forall s x, le (ev1 s x) (ev2 s x)) -> forall l s, le (with_binds ev1 s l) (with_binds ev2 s l).
 Proof.
   intros H. induction l as [|[x e] r IH]; intros s; cbn [with_binds]; [apply le_refl|].
-  apply le_bind; [apply H|]. intros [v s1]. apply IH.
+  apply le_bind; [apply H|]. intros [v s1].
+  (* binding the target (plain or unpacking) does not consult the mode *)
+  apply le_bind; [apply le_refl|]. intros s2. apply IH.
+Qed.
+
+Lemma map_eval_pairs_mono (ev1 ev2 : st -> expr -> outcome (value * st)) :
+  (forall s x, le (ev1 s x) (ev2 s x)) -> forall l s, le (map_eval_pairs ev1 s l) (map_eval_pairs ev2 s l).
+Proof.
+  intros H. induction l as [|[ke ve] r IH]; intros s; cbn [map_eval_pairs]; [apply le_refl|].
+  apply le_bind; [apply H|]. intros [k s1]. apply le_bind; [apply H|]. intros [v s2].
+  apply le_bind; [apply IH|]. intros [kvs s3]. apply le_refl.
 Qed.
 
 (* ------------------------------------------------------------------------------------------ *)
@@ -251,6 +267,7 @@ Proof.
   - (* EConst *) destruct l; apply le_refl.
   - (* EVar *) rewrite lookup_eq. apply le_refl.
   - (* EList *) apply le_bind; [apply map_eval_mono; intros; apply IHe|]. intros [vs s1]. apply le_refl.
+  - (* EMap *) apply le_bind; [apply map_eval_pairs_mono; intros; apply IHe|]. intros [kvs s1]. apply le_refl.
   - (* ENeg *) apply le_bind; [apply IHe|]. intros [v s1]. apply le_refl.
   - (* ENot *) apply le_bind; [apply IHe|]. intros [v s1]. apply le_bind; [apply u_is_true_mono, W|]. intros b. apply le_refl.
   - (* EBin *) apply le_bind; [apply IHe|]. intros [x s1]. apply le_bind; [apply IHe|]. intros [y s2].
@@ -263,10 +280,10 @@ Proof.
   - (* EIf *) apply le_bind; [apply IHe|]. intros [x s1]. apply le_bind; [apply u_is_true_mono, W|]. intros b.
     destruct b; [apply IHe|]. destruct f; [apply IHe | apply le_refl].
   - (* EItem *) apply le_bind; [apply IHe|]. intros [x s1]. apply le_bind; [apply IHe|]. intros [k s2].
-    destruct (match x with VList l => _ | _ => None end); [apply le_refl|].
+    destruct (get_item_opt x k); [apply le_refl|].
     apply le_bind; [apply u_handle_undefined_mono, W|]. intros v. apply le_refl.
   - (* EAttr *) apply le_bind; [apply IHe|]. intros [x s1].
-    destruct (match x with VLoop i n => _ | _ => None end); [apply le_refl|].
+    destruct (get_attr_opt x _); [apply le_refl|].
     apply le_bind; [apply u_handle_undefined_mono, W|]. intros v. apply le_refl.
   - (* EFilter *) apply le_bind; [apply IHe|]. intros [x s1].
     apply le_bind; [apply map_eval_mono; intros; apply IHe|]. intros [vs s2].
@@ -301,7 +318,8 @@ Proof.
     intros [items' s2]. cbv zeta.
     apply le_bind; [apply loop_items_mono; intros; apply IHl|]. intros s5.
     destruct items'; [destruct els; [apply IHl | apply le_refl] | apply le_refl].
-  - (* SSet *) apply le_bind; [apply IHe|]. intros [v s1]. apply le_refl.
+  - (* SSet *) apply le_bind; [apply IHe|]. intros [v s1].
+    apply le_bind; [apply le_refl|]. intros s2. apply le_refl.
   - (* SSetBlock *) apply le_bind.
     + apply le_bind; [apply IHl|]. intros [sg s1]. apply le_refl.
     + intros [[sg txt] s1]. destruct sg; try apply le_refl.
@@ -388,6 +406,74 @@ Proof.
   cbn [exec]. fold (eval c). destruct (eval c fuel esc s e) as [[v s1]| | |]; cbn [bind]; try reflexivity.
   unfold emit_check. destruct (u_strictish (c_mode c) && is_strict_undef v); reflexivity.
 Qed.
+
+Lemma eval_item_uses_result c fuel esc s a i :
+  eval c (S fuel) esc s (EItem a i) =
+  bind (eval c fuel esc s a) (fun '(x, s1) => bind (eval c fuel esc s1 i) (fun '(k, s2) =>
+  bind (item_result (c_mode c) x k) (fun v => Ok (v, s2)))).
+Proof.
+  cbn [eval]. fold (eval c). destruct (eval c fuel esc s a) as [[x s1]| | |]; cbn [bind]; try reflexivity.
+  destruct (eval c fuel esc s1 i) as [[k s2]| | |]; cbn [bind]; try reflexivity.
+  unfold item_result. destruct (get_item_opt x k); reflexivity.
+Qed.
+
+Lemma eval_attr_uses_result c fuel esc s a attr :
+  eval c (S fuel) esc s (EAttr a attr) =
+  bind (eval c fuel esc s a) (fun '(x, s1) => bind (attr_result (c_mode c) x attr) (fun v => Ok (v, s1))).
+Proof.
+  cbn [eval]. fold (eval c). destruct (eval c fuel esc s a) as [[x s1]| | |]; cbn [bind]; try reflexivity.
+  unfold attr_result. destruct (get_attr_opt x attr); reflexivity.
+Qed.
+
+Lemma exec_for_uses_iter_items c fuel esc s tgt iter flt body els rc :
+  exec c (S fuel) esc s (SFor tgt iter flt body els rc) =
+  bind (eval c fuel esc s iter) (fun '(iv, s1) =>
+  bind (iter_items (c_mode c) iv) (fun items =>
+  bind (match flt with
+        | None => Ok (items, s1)
+        | Some fe => filter_items (c_mode c) (eval c fuel esc) tgt fe s1 items
+        end) (fun '(items, s2) =>
+  let n := lenZ items in
+  bind (loop_items (exec_list c fuel esc) tgt body n (push_frame s2 (mkFrame [] (Some (0, n, true)) None None false)) 0 items) (fun s5 =>
+  let s6 := pop_frame s5 in
+  match items, els with
+  | [], Some eb => exec_list c fuel esc s6 eb
+  | _, _ => Ok (SigNormal, s6)
+  end)))).
+Proof. reflexivity. Qed.
+
+(* maps at the access, iteration and membership sites *)
+Lemma map_item_found_proof m kvs k v : map_get k kvs = Some v -> item_result m (VMap kvs) k = Ok v.
+Proof. intros H. unfold item_result. cbn [get_item_opt]. rewrite H. reflexivity. Qed.
+
+Lemma map_item_missing_proof m kvs k : map_get k kvs = None -> item_result m (VMap kvs) k = Ok VUndef.
+Proof. intros H. unfold item_result. cbn [get_item_opt is_undef]. rewrite H. destruct m; reflexivity. Qed.
+
+Lemma map_attr_is_item_proof m kvs a : attr_result m (VMap kvs) a = item_result m (VMap kvs) (VStr false (attr_str a)).
+Proof. reflexivity. Qed.
+
+Lemma item_of_undef_proof m x k : is_undef x = true -> item_result m x k = u_handle_undefined m true.
+Proof. intros H. destruct x; try discriminate H; reflexivity. Qed.
+
+Lemma attr_of_undef_proof m x a : is_undef x = true -> attr_result m x a = u_handle_undefined m true.
+Proof. intros H. destruct x; try discriminate H; reflexivity. Qed.
+
+Lemma iter_map_proof m kvs : iter_items m (VMap kvs) = Ok (map fst kvs).
+Proof. reflexivity. Qed.
+
+Lemma in_map_proof m a kvs : a <> VUndef ->
+  do_cmp m CIn a (VMap kvs) = Ok (match map_get a kvs with Some _ => true | None => false end).
+Proof.
+  intros H. unfold do_cmp, u_not_undef. cbn [is_strict_undef]. rewrite Bool.andb_false_r. cbn [bind].
+  replace (is_strict_undef a) with false by (destruct a; try reflexivity; congruence).
+  rewrite Bool.andb_false_r. reflexivity.
+Qed.
+
+Lemma in_undef_proof m a : do_cmp m CIn a VUndef = if u_strictish m then Err E_UndefinedError else Ok false.
+Proof. destruct m; cbn; try reflexivity; destruct a; reflexivity. Qed.
+
+Lemma unpack_undef_proof x y s v : is_undef v = true -> bind_target (TPair x y) s v = Err E_CannotUnpack.
+Proof. intros H. destruct v; try discriminate H; reflexivity. Qed.
 
 Lemma truth_site_proof m :
   u_is_true m VUndef = match m with Strict => Err E_UndefinedError | _ => Ok false end.
